@@ -108,6 +108,15 @@ func c12Faults() []c12Fault {
 			s.Pool = []string{"poolroot"}
 			s.TcbResp.HdrRoles, s.QeResp.HdrRoles, s.PckCrlHdrRoles = []string{"signer", "poolroot"}, []string{"signer", "poolroot"}, []string{"inter", "poolroot"}
 		}),
+		// the carried intermediate is a re-issued certificate that is not yet valid; the PCK CRL response's issuer-chain header
+		// carries a valid certificate of the same CA — material that only exists when revocation checking is on
+		f("carried-intermediate-not-yet-valid(valid-certificate-of-that-ca-in-the-crl-header)", func(s *world.Spec, _ *rand.Rand) {
+			ok := *s.Cert("inter")
+			ok.Role, ok.Serial = "interOK", big.NewInt(3003)
+			s.Certs = append(s.Certs, &ok)
+			s.PckCrlHdrRoles = []string{"interOK", "root"}
+			s.Cert("inter").NotBefore = s.Now[0].Add(time.Hour).Truncate(time.Second)
+		}),
 		f("leaf-revoked", func(s *world.Spec, _ *rand.Rand) { s.PckCrl.Revoked = append(s.PckCrl.Revoked, s.Cert("leaf").Serial) }),
 		f("intermediate-revoked", func(s *world.Spec, _ *rand.Rand) {
 			s.RootCrls[0].Revoked = append(s.RootCrls[0].Revoked, s.Cert("inter").Serial)
@@ -444,6 +453,32 @@ func c12(r *hx.Run) {
 			}
 			c12Step(r, sh, w, o[0], o[1], pool, poolNil, hist, fmt.Sprintf("step:%d", k+1), nowTag, poolTag, "fault:"+w.Spec.Fault, "family:history")
 		}
+	}
+	c06Reissue(r)
+	// through one shared options value: a world is accepted, then its endpoints start serving CRLs that list one of its
+	// certificates — nothing the earlier call established (authenticated chains, scanned lists) may stand in for this call's checks
+	for i := 0; i < map[bool]int{true: 120, false: 12}[r.Tier == "thorough"]; i++ {
+		rng := c05CaseRng(r, 0x32, i)
+		w := world.Build(c12Wall(rng, time.Now()))
+		var own []*x509.Certificate
+		for _, role := range w.Spec.Pool {
+			own = append(own, w.Certs[role].Cert)
+		}
+		sh := &c12Shared{o: &verify.Options{}}
+		first := c05Levels[[]int{0, 1, 1}[i%3]]
+		c12Step(r, sh, w, first[0], first[1], own, w.Spec.Pool == nil, "history:crl-reissue", "step:1")
+		what := []string{"signer", "inter", "leaf"}[(i/3)%3]
+		if what == "leaf" {
+			c := w.Spec.PckCrl
+			c.Revoked = append(append([]*big.Int{}, c.Revoked...), w.Spec.Cert("leaf").Serial)
+			w.ReplacePckCrl(c)
+		} else {
+			c := w.Spec.RootCrls[0]
+			c.Revoked = append(append([]*big.Int{}, c.Revoked...), w.Spec.Cert(what).Serial)
+			w.ReplaceRootCrl(0, c)
+		}
+		w.Spec.Fault, w.Spec.Honest = "crl-now-lists-the-"+what, false
+		c12Step(r, sh, w, true, true, own, w.Spec.Pool == nil, "history:crl-reissue", "step:2", "now-listed:"+what)
 	}
 	cvPairHistories(r, 0x2212, "C12", map[bool]int{true: 1, false: 2}[r.Tier == "thorough"])
 	r.Note("population", fmt.Sprintf("%d faults; %d worlds x 4 option combinations; %d histories of length 2-4; %d real-time histories + systematic pair histories", len(faults), worlds, histories, realtime))
